@@ -2,6 +2,7 @@ package main
 
 import (
 	"fmt"
+	"math/big"
 	"strings"
 	"time"
 
@@ -13,22 +14,67 @@ import (
 	"github.com/osmosis-labs/osmosis/v31/zzverif/core"
 )
 
-func (w *World) intermediary(val int) sdk.AccAddress {
-	return sftypes.GetSuperfluidIntermediaryAccountAddr(w.ShareDenom, w.Env.Vals[val].String())
+func (w *World) intermediary(d, val int) sdk.AccAddress {
+	return sftypes.GetSuperfluidIntermediaryAccountAddr(w.Denoms[d], w.Env.Vals[val].String())
 }
+
+// knownCLSig is the signature of every violation that the RECORDED defect of the concentrated pool's full-range
+// liquidity counter (it is increased by every full-range position ever written and never decreased:
+// known_findings C19-cl-full-range-liquidity-counter-not-exported-and-overcounted) explains completely: the
+// observed value differs from the reference (liquidity = sum over the live full-range positions) and equals
+// the value the same reference formula gives for the over-counted liquidity. Anything else keeps its own signature.
+const knownCLSig = "cl-multiplier-from-overcounted-full-range-liquidity"
 
 // delegated returns the tokens the intermediary account of validator val has staked:
 // delegation shares -> validator.TokensFromShares, truncated.
-func (w *World) delegated(ctx sdk.Context, val int) (sdkmath.Int, string) {
+func (w *World) delegated(ctx sdk.Context, d, val int) (sdkmath.Int, string) {
 	v, err := w.App.StakingKeeper.GetValidator(ctx, w.Env.Vals[val])
 	if err != nil {
 		return sdkmath.ZeroInt(), "validator missing: " + err.Error()
 	}
-	d, err := w.App.StakingKeeper.GetDelegation(ctx, w.intermediary(val), w.Env.Vals[val])
+	return w.delegationOf(ctx, w.intermediary(d, val), val, v), ""
+}
+
+func (w *World) delegationOf(ctx sdk.Context, who sdk.AccAddress, val int, v interface {
+	TokensFromShares(sdkmath.LegacyDec) sdkmath.LegacyDec
+}) sdkmath.Int {
+	dl, err := w.App.StakingKeeper.GetDelegation(ctx, who, w.Env.Vals[val])
 	if err != nil {
-		return sdkmath.ZeroInt(), "" // no delegation
+		return sdkmath.ZeroInt() // no delegation
 	}
-	return v.TokensFromShares(d.Shares).TruncateInt(), ""
+	return v.TokensFromShares(dl.Shares).TruncateInt()
+}
+
+type stakeFinding struct{ a, s, d string }
+
+// stakeOracle evaluates the three stake assertions of one intermediary account under a given multiplier.
+func (w *World) stakeOracle(l *Ledger, d, v int, mult *big.Int, staked sdkmath.Int, n int, sum sdkmath.Int) (out []stakeFinding, diff sdkmath.Int) {
+	exp := w.Value(mult, sum)
+	diff = staked.Sub(exp)
+	sig := fmt.Sprintf("locks=%d stake %s value", n, signOf(diff))
+	what := fmt.Sprintf("val%d", v)
+	if d == 1 {
+		sig, what = "concentrated "+sig, fmt.Sprintf("val%d (concentrated share)", v)
+	}
+	if l.JustRefreshed {
+		if !diff.IsZero() {
+			out = append(out, stakeFinding{"stake.exact-after-epoch-refresh", sig,
+				fmt.Sprintf("%s: intermediary account stakes %s, risk-adjusted value of its %d connected locks (sum %s shares, multiplier %s e-18, risk %s e-18) is %s; difference %s in the state right after the epoch refresh", what, staked, n, sum, mult, w.Risk, exp, diff)})
+		}
+		return
+	}
+	if absInt(diff).GT(sdkmath.NewInt(int64(n))) {
+		out = append(out, stakeFinding{"stake.within-one-unit-per-lock-between-epochs", sig,
+			fmt.Sprintf("%s: intermediary account stakes %s, risk-adjusted value of its %d connected locks (sum %s shares, multiplier %s e-18, risk %s e-18) is %s; difference %s exceeds %d (%d stake-changing steps on this account since the last epoch refresh; last op %s)", what, staked, n, sum, mult, w.Risk, exp, diff, n, l.StakeOps[d][v], l.LastOp)})
+	}
+	// Every stake-changing step adds or removes the value of ONE lock amount, computed with two
+	// half-even roundings, while the expectation is the value of the SUM: each step can move the
+	// difference by at most 2 units. Anything beyond that budget is not rounding.
+	if budget := int64(2 * l.StakeOps[d][v]); absInt(diff).GT(sdkmath.NewInt(budget)) {
+		out = append(out, stakeFinding{"stake.difference-is-rounding-only-between-epochs", sig,
+			fmt.Sprintf("%s: intermediary account stakes %s, risk-adjusted value of its %d connected locks (sum %s shares, multiplier %s e-18) is %s; difference %s exceeds the rounding budget %d of %d stake-changing steps since the last epoch refresh", what, staked, n, sum, mult, exp, diff, budget, l.StakeOps[d][v])})
+	}
+	return
 }
 
 func absInt(x sdkmath.Int) sdkmath.Int {
@@ -68,7 +114,7 @@ func (w *World) check(ctx sdk.Context, l *Ledger, fail func(a, s, d string)) {
 	want := map[uint64]string{}
 	for _, k := range l.Locks {
 		if k.SF == sfDelegated {
-			want[k.ID] = w.intermediary(k.Val).String()
+			want[k.ID] = w.intermediary(k.D, k.Val).String()
 		}
 	}
 	got := map[uint64]string{}
@@ -92,21 +138,25 @@ func (w *World) check(ctx sdk.Context, l *Ledger, fail func(a, s, d string)) {
 	}
 	// intermediary accounts: one per (denom, validator) ever delegated through
 	accs := a.SuperfluidKeeper.GetAllIntermediaryAccounts(ctx)
-	seenAcc := [2]bool{}
+	seenAcc := [2][2]bool{}
 	for _, ac := range accs {
 		ok := false
-		for v := range w.Env.Vals {
-			if ac.Denom == w.ShareDenom && ac.ValAddr == w.Env.Vals[v].String() && l.Acct[v] {
-				ok, seenAcc[v] = true, true
+		for d := range w.Denoms {
+			for v := range w.Env.Vals {
+				if ac.Denom == w.Denoms[d] && ac.ValAddr == w.Env.Vals[v].String() && l.Acct[d][v] {
+					ok, seenAcc[d][v] = true, true
+				}
 			}
 		}
 		if !ok {
 			fail("accounts.only-for-used-pairs", "", fmt.Sprintf("intermediary account %s/%s without any accepted delegation", ac.Denom, ac.ValAddr))
 		}
 	}
-	for v := range l.Acct {
-		if l.Acct[v] && !seenAcc[v] {
-			fail("accounts.exist-for-used-pairs", "", fmt.Sprintf("no intermediary account for val%d", v))
+	for d := range l.Acct {
+		for v := range l.Acct[d] {
+			if l.Acct[d][v] && !seenAcc[d][v] {
+				fail("accounts.exist-for-used-pairs", "", fmt.Sprintf("no intermediary account for %s/val%d", w.Denoms[d], v))
+			}
 		}
 	}
 
@@ -130,12 +180,12 @@ func (w *World) check(ctx sdk.Context, l *Ledger, fail func(a, s, d string)) {
 				fail("markers.none-on-undelegated-lock", "plain", fmt.Sprintf("lock %d is not superfluid-staked but has synthetic locks %v", k.ID, ss))
 			}
 		case sfDelegated:
-			if len(ss) != 1 || ss[0].denom != w.ShareDenom+"/superbonding/"+val || !ss[0].end.IsZero() {
+			if len(ss) != 1 || ss[0].denom != w.Denoms[k.D]+"/superbonding/"+val || !ss[0].end.IsZero() {
 				fail("markers.delegated-lock-has-exactly-one-staking-marker", fmt.Sprintf("n=%d", len(ss)), fmt.Sprintf("lock %d delegated to val%d has synthetic locks %v", k.ID, k.Val, ss))
 			}
 		case sfUndelegating:
 			wantEnd := k.UndelAt.Add(w.U)
-			if len(ss) != 1 || ss[0].denom != w.ShareDenom+"/superunbonding/"+val {
+			if len(ss) != 1 || ss[0].denom != w.Denoms[k.D]+"/superunbonding/"+val {
 				fail("markers.undelegating-lock-has-exactly-one-unstaking-marker", fmt.Sprintf("n=%d", len(ss)), fmt.Sprintf("lock %d undelegating from val%d since %s has synthetic locks %v", k.ID, k.Val, k.UndelAt, ss))
 			} else if !ss[0].end.Equal(wantEnd) {
 				fail("markers.unstaking-marker-lasts-the-unbonding-period", fmt.Sprintf("off=%s", ss[0].end.Sub(wantEnd)), fmt.Sprintf("lock %d undelegated at %s: unstaking marker ends %s, expected %s (unbonding period %s)", k.ID, k.UndelAt, ss[0].end, wantEnd, w.U))
@@ -156,50 +206,70 @@ func (w *World) check(ctx sdk.Context, l *Ledger, fail func(a, s, d string)) {
 	}
 
 	// (3) stake of each intermediary account vs the risk-adjusted value of the connected locks
-	for v := range w.Env.Vals {
-		d, problem := w.delegated(ctx, v)
-		if problem != "" {
-			fail("stake.validator-exists", "", problem)
-			continue
+	for d := range w.Denoms {
+		cl, mult := "", l.Mult
+		if d == 1 {
+			cl, mult = "cl_", l.MultCL
 		}
-		n, sum := l.connected(v)
-		exp := w.Value(l.Mult, sum)
-		diff := d.Sub(exp)
-		if n >= 2 {
-			w.Vac["states_with_two_locks_on_one_account"]++
-		}
-		if l.JustRefreshed {
-			if n > 0 {
-				w.Vac["states_checked_exactly_after_refresh"]++
+		for v := range w.Env.Vals {
+			staked, problem := w.delegated(ctx, d, v)
+			if problem != "" {
+				fail("stake.validator-exists", "", problem)
+				continue
 			}
-			if !diff.IsZero() {
-				fail("stake.exact-after-epoch-refresh", fmt.Sprintf("locks=%d stake %s value", n, signOf(diff)),
-					fmt.Sprintf("val%d: intermediary account stakes %s, risk-adjusted value of its %d connected locks (sum %s shares, multiplier %s e-18, risk %s e-18) is %s; difference %s in the state right after the epoch refresh", v, d, n, sum, l.Mult, w.Risk, exp, diff))
+			n, sum := l.connected(d, v)
+			fs, diff := w.stakeOracle(l, d, v, mult, staked, n, sum)
+			if n >= 2 {
+				w.Vac[cl+"states_with_two_locks_on_one_account"]++
 			}
-			continue
-		}
-		if !diff.IsZero() {
-			w.Vac["states_with_rounding_drift_between_epochs"]++
-			if m, _ := w.Extra["max_drift"].(float64); float64(absInt(diff).Int64()) > m {
-				w.Extra["max_drift"] = float64(absInt(diff).Int64())
+			if l.JustRefreshed {
+				if n > 0 {
+					w.Vac[cl+"states_checked_exactly_after_refresh"]++
+				}
+			} else {
+				if !diff.IsZero() {
+					w.Vac[cl+"states_with_rounding_drift_between_epochs"]++
+					if m, _ := w.Extra["max_drift"].(float64); float64(absInt(diff).Int64()) > m {
+						w.Extra["max_drift"] = float64(absInt(diff).Int64())
+					}
+				}
+				if absInt(diff).GT(sdkmath.NewInt(int64(n))) {
+					w.Vac[cl+"states_with_drift_beyond_one_unit_per_lock"]++
+				}
 			}
-		}
-		if absInt(diff).GT(sdkmath.NewInt(int64(n))) {
-			w.Vac["states_with_drift_beyond_one_unit_per_lock"]++
-			fail("stake.within-one-unit-per-lock-between-epochs", fmt.Sprintf("locks=%d stake %s value", n, signOf(diff)),
-				fmt.Sprintf("val%d: intermediary account stakes %s, risk-adjusted value of its %d connected locks (sum %s shares, multiplier %s e-18, risk %s e-18) is %s; difference %s exceeds %d (%d stake-changing steps on this account since the last epoch refresh; last op %s)", v, d, n, sum, l.Mult, w.Risk, exp, diff, n, l.StakeOps[v], l.LastOp))
-		}
-		// Every stake-changing step adds or removes the value of ONE lock amount, computed with two
-		// half-even roundings, while the expectation is the value of the SUM: each step can move the
-		// difference by at most 2 units. Anything beyond that budget is not rounding.
-		if budget := int64(2 * l.StakeOps[v]); absInt(diff).GT(sdkmath.NewInt(budget)) {
-			fail("stake.difference-is-rounding-only-between-epochs", fmt.Sprintf("locks=%d stake %s value", n, signOf(diff)),
-				fmt.Sprintf("val%d: intermediary account stakes %s, risk-adjusted value of its %d connected locks (sum %s shares, multiplier %s e-18) is %s; difference %s exceeds the rounding budget %d of %d stake-changing steps since the last epoch refresh", v, d, n, sum, l.Mult, exp, diff, budget, l.StakeOps[v]))
+			if d == 1 && len(fs) > 0 && l.MultCL.Cmp(l.MultCLImpl) != 0 {
+				// classification only (see knownCLSig): which of these does the recorded counter defect explain?
+				impl, _ := w.stakeOracle(l, d, v, l.MultCLImpl, staked, n, sum)
+				for i := range fs {
+					explained := true
+					for _, g := range impl {
+						explained = explained && g.a != fs[i].a
+					}
+					if explained {
+						fs[i].s = knownCLSig
+						fs[i].d += fmt.Sprintf(" [the assertion holds for the multiplier %s e-18 that the same formula gives for the over-counted full-range liquidity %s e-18 (live positions: %s e-18)]", l.MultCLImpl, l.CLEver, l.CLLive)
+					}
+				}
+			}
+			for _, f := range fs {
+				fail(f.a, f.s, f.d)
+			}
 		}
 	}
 	// the stored multiplier is the one the ledger derived from the pool at the last epoch
 	if m := a.SuperfluidKeeper.GetOsmoEquivalentMultiplier(ctx, w.ShareDenom).BigInt(); m.Cmp(l.Mult) != 0 {
-		fail("multiplier.refreshed-from-pool-at-epoch", fmt.Sprintf("refreshed=%v", l.JustRefreshed), fmt.Sprintf("stored multiplier %s e-18, pool had %s uosmo for %s shares at the last epoch => %s e-18", m, l.PoolOsmo, w.TotalShares, l.Mult))
+		fail("multiplier.refreshed-from-pool-at-epoch", fmt.Sprintf("refreshed=%v", l.JustRefreshed), fmt.Sprintf("stored multiplier %s e-18, pool had %s uosmo for %s shares at the last epoch => %s e-18", m, l.PoolOsmo, l.Shares, l.Mult))
+	}
+	// the same for the concentrated share: bond-denom amount underlying the pool's full-range liquidity / that liquidity
+	if m := a.SuperfluidKeeper.GetOsmoEquivalentMultiplier(ctx, w.Denoms[1]).BigInt(); m.Cmp(l.MultCL) != 0 {
+		sig, note := fmt.Sprintf("refreshed=%v", l.JustRefreshed), ""
+		if m.Cmp(l.MultCLImpl) == 0 {
+			sig = knownCLSig
+			note = fmt.Sprintf(" [it is the multiplier the same formula gives for the over-counted liquidity %s e-18 = every full-range position ever written]", l.CLEver)
+			w.Vac["cl_multiplier_from_overcounted_liquidity_observed"]++
+		}
+		fail("multiplier.concentrated-refreshed-from-live-full-range-liquidity-at-epoch", sig,
+			fmt.Sprintf("stored multiplier of %s is %s e-18; the full-range positions existing at the last epoch sum to liquidity %s e-18, which at the price then in force gives %s e-18%s", w.Denoms[1], m, l.CLLive, l.MultCL, note))
 	}
 	// harness sanity: the ledger's pool balance is the pool's (gamm is not under test here)
 	if pb := a.BankKeeper.GetBalance(ctx, w.PoolAddr, w.BondDenom).Amount; !pb.Equal(l.PoolOsmo) {
@@ -215,9 +285,9 @@ func (w *World) check(ctx sdk.Context, l *Ledger, fail func(a, s, d string)) {
 
 	// (5) the locks themselves: owner, amount, duration, unlock end; nothing else is locked; owners'
 	// shares are either liquid or in their locks (so nothing was paid out early)
-	locked := map[string]sdkmath.Int{}
+	locked, lockedCL := map[string]sdkmath.Int{}, map[string]sdkmath.Int{}
 	for _, o := range owners {
-		locked[o] = sdkmath.ZeroInt()
+		locked[o], lockedCL[o] = sdkmath.ZeroInt(), sdkmath.ZeroInt()
 	}
 	for _, k := range l.Locks {
 		lk, err := a.LockupKeeper.GetLockByID(ctx, k.ID)
@@ -229,10 +299,15 @@ func (w *World) check(ctx sdk.Context, l *Ledger, fail func(a, s, d string)) {
 		if k.Unlocking {
 			end = k.End
 		}
-		if lk.Owner != core.Acc(k.Owner).String() || len(lk.Coins) != 1 || lk.Coins[0].Denom != w.ShareDenom || !lk.Coins[0].Amount.Equal(k.Amt) || lk.Duration != k.Dur || !lk.EndTime.Equal(end) {
+		if lk.Owner != core.Acc(k.Owner).String() || len(lk.Coins) != 1 || lk.Coins[0].Denom != w.denomOf(k) || !lk.Coins[0].Amount.Equal(k.Amt) || lk.Duration != k.Dur || !lk.EndTime.Equal(end) {
 			fail("locks.record-matches-history", "record", fmt.Sprintf("lock %d is %s owner=%s duration=%s end=%s; history says amount %s owner %s duration %s end %s", k.ID, lk.Coins, lk.Owner, lk.Duration, lk.EndTime, k.Amt, k.Owner, k.Dur, end))
 		}
-		locked[k.Owner] = locked[k.Owner].Add(k.Amt)
+		switch k.D {
+		case 1:
+			lockedCL[k.Owner] = lockedCL[k.Owner].Add(k.Amt)
+		case 0:
+			locked[k.Owner] = locked[k.Owner].Add(k.Amt)
+		}
 		if k.SF != sfPlain && k.Unlocking && lk.EndTime.Before(k.UndelAt.Add(w.U)) {
 			// unlock end precedes the end of the undelegation: the coins could leave early
 			fail("withdraw.unlock-end-not-before-undelegation-end", "", fmt.Sprintf("lock %d unlocks at %s, undelegation matures at %s", k.ID, lk.EndTime, k.UndelAt.Add(w.U)))
@@ -243,12 +318,58 @@ func (w *World) check(ctx sdk.Context, l *Ledger, fail func(a, s, d string)) {
 	}
 	for _, o := range owners {
 		bal := a.BankKeeper.GetBalance(ctx, core.Acc(o), w.ShareDenom).Amount
-		if !bal.Add(locked[o]).Equal(w.Funds[o]) {
-			fail("withdraw.owner-shares-liquid-plus-locked-constant", "owner "+o, fmt.Sprintf("owner %s: liquid %s + locked %s != %s", o, bal, locked[o], w.Funds[o]))
+		if conv := l.Conv[ownerIdx(o)]; !bal.Add(locked[o]).Add(conv).Equal(w.Funds[o]) {
+			fail("withdraw.owner-shares-liquid-plus-locked-constant", "owner "+o, fmt.Sprintf("owner %s: liquid %s + locked %s + converted to stake %s != %s", o, bal, locked[o], conv, w.Funds[o]))
 		}
+		// concentrated shares exist only inside locks
+		if cb := a.BankKeeper.GetBalance(ctx, core.Acc(o), w.Denoms[1]).Amount; !cb.IsZero() {
+			fail("locks.concentrated-shares-are-never-liquid", "owner "+o, fmt.Sprintf("owner %s holds %s liquid %s", o, cb, w.Denoms[1]))
+		}
+	}
+	if mb := a.BankKeeper.GetBalance(ctx, a.AccountKeeper.GetModuleAddress("lockup"), w.Denoms[1]).Amount; !mb.Equal(lockedCL["A"].Add(lockedCL["B"])) {
+		fail("locks.module-holds-exactly-the-locked-shares", "concentrated", fmt.Sprintf("lockup module holds %s %s, live locks sum %s", mb, w.Denoms[1], lockedCL["A"].Add(lockedCL["B"])))
 	}
 	if mb := a.BankKeeper.GetBalance(ctx, a.AccountKeeper.GetModuleAddress("lockup"), w.ShareDenom).Amount; !mb.Equal(locked["A"].Add(locked["B"])) {
 		fail("locks.module-holds-exactly-the-locked-shares", "", fmt.Sprintf("lockup module holds %s, live locks sum %s", mb, locked["A"].Add(locked["B"])))
+	}
+
+	// (6) the owners' concentrated positions: exactly the ledger's, each with the recorded liquidity; a position
+	// whose lock is live points to that lock
+	for _, p := range l.Positions {
+		pos, err := a.ConcentratedLiquidityKeeper.GetPosition(ctx, p.ID)
+		if err != nil || pos.Address != core.Acc(p.Owner).String() || pos.Liquidity.BigInt().Cmp(p.Liq) != 0 {
+			fail("positions.record-matches-history", "record", fmt.Sprintf("position %d: %+v (%v); history says owner %s liquidity %s e-18", p.ID, pos, err, p.Owner, p.Liq))
+			continue
+		}
+		if i := l.find(p.Lock); p.Lock != 0 && i >= 0 {
+			if id, err := a.ConcentratedLiquidityKeeper.GetLockIdFromPositionId(ctx, p.ID); err != nil || id != p.Lock {
+				fail("positions.locked-position-points-to-its-lock", "", fmt.Sprintf("position %d was created with lock %d (live); the module says lock %d (%v)", p.ID, p.Lock, id, err))
+			}
+		}
+	}
+	for _, o := range owners {
+		n := 0
+		for _, p := range l.Positions {
+			if p.Owner == o {
+				n++
+			}
+		}
+		if ps, err := a.ConcentratedLiquidityKeeper.GetUserPositions(ctx, core.Acc(o), w.CLPoolID); err != nil || len(ps) != n {
+			fail("positions.no-unknown-positions", "owner "+o, fmt.Sprintf("owner %s has %d positions in the pool, %d in the history (%v)", o, len(ps), n, err))
+		}
+	}
+
+	// (7) UnbondConvertAndStake: each owner's native delegation is exactly the OSMO the conversions reported
+	for oi, o := range owners {
+		for v := range w.Env.Vals {
+			val, err := a.StakingKeeper.GetValidator(ctx, w.Env.Vals[v])
+			if err != nil {
+				continue // reported under (3)
+			}
+			if got := w.delegationOf(ctx, core.Acc(o), v, val); !got.Equal(l.Native[oi][v]) {
+				fail("convert.owner-native-delegation-is-the-converted-osmo", "owner "+o, fmt.Sprintf("owner %s delegates %s to val%d natively; the accepted conversions reported %s", o, got, v, l.Native[oi][v]))
+			}
+		}
 	}
 }
 
@@ -256,6 +377,12 @@ func describe(l *Ledger) string {
 	var b strings.Builder
 	for _, k := range l.Locks {
 		st := []string{"plain", "delegated", "undelegating"}[k.SF]
+		if k.D == 1 {
+			st = fmt.Sprintf("concentrated(position %d) %s", k.Pos, st)
+		}
+		if k.D == 2 {
+			st = k.Denom + " (unpooled) " + st
+		}
 		fmt.Fprintf(&b, " [lock %d %s %s %s val%d", k.ID, k.Owner, k.Amt, st, k.Val)
 		if k.SF == sfUndelegating {
 			fmt.Fprintf(&b, " undel@%s", k.UndelAt.Format("15:04:05"))
@@ -265,7 +392,10 @@ func describe(l *Ledger) string {
 		}
 		b.WriteString("]")
 	}
-	return fmt.Sprintf("h=%d t=%s epoch=%d mult=%s minted=%s refreshed=%v%s", l.Height, l.Now.Format("15:04:05"), l.EpNum, l.Mult, l.Minted, l.JustRefreshed, b.String())
+	for _, p := range l.Positions {
+		fmt.Fprintf(&b, " [position %d %s liquidity %s e-18 lock %d]", p.ID, p.Owner, p.Liq, p.Lock)
+	}
+	return fmt.Sprintf("h=%d t=%s epoch=%d mult=%s mult(concentrated)=%s minted=%s refreshed=%v%s", l.Height, l.Now.Format("15:04:05"), l.EpNum, l.Mult, l.MultCL, l.Minted, l.JustRefreshed, b.String())
 }
 
 // classSig gives every violation a class signature: the explorer's default (seed + op list) would make
